@@ -77,6 +77,15 @@ def main(argv):
         return 2
     prop = argv[0].upper()
     os.chdir(ROOT)
+    # the host application's logging configuration (set by the two child runs): everything below CRITICAL switched off / the root logger at DEBUG.
+    # A library that routes its reports through `logging`, or does extra work "only when debugging", behaves differently under them
+    how = os.environ.get("VERIF_LOGGING")
+    if how:
+        import logging
+        if how == "disabled":
+            logging.disable(logging.CRITICAL)
+        else:
+            logging.basicConfig(level=logging.DEBUG, handlers=[logging.NullHandler()])
     src = engine.load_praatio()
     if os.environ.get("VERIF_PRELUDE"):      # the process gets a past before anything is checked (mc/props/prelude.py); workers are forked later
         from mc.props import prelude
